@@ -96,6 +96,12 @@ def hkl_comparisons(rng, tools, laue, sgs):
     s = sg.sg(sgno=no)
     cell = conforming_cell(rng, s.crystal_system, s.cell_choice)
     lo, hi = 0.0, rng.uniform(0.15, 0.35) * 5.0 / cell[0] if cell[0] > 5 else rng.uniform(0.15, 0.3)
+    if rng.random() < 0.15 and s.cell_choice != 'rhombohedral':
+        # directed: one short reciprocal axis, indices beyond 10 along it
+        from .. import hklcorr as HC
+        dc = HC.make_directed_case(rng, s, 'high')
+        if dc is not None:
+            cell, lo, hi = dc['cell'], dc['lo'], dc['hi']
     out = []
     out.append(('genhkl_all', sorted_rows(tools.genhkl_all(cell, lo, hi, sgno=no)), sorted_rows(laue.genhkl_all(cell, lo, hi, sgno=no)), {}))
     out.append(('genhkl_unique', sorted_rows(tools.genhkl_unique(cell, lo, hi, sgno=no, output_stl=True)),
